@@ -16,6 +16,7 @@
 //   blor x1 y1 z1 x2 y2 z2 -> s phi m tantheta of a generic-geometry bin with these detector coordinates (data)
 //   ovl ...            -> overlap_interpolate on float rows
 //   arc ...            -> ArcCorrection::do_arc_correction on one row
+//   acnew / acsu ... / acrow ... -> one ArcCorrection object re-used: construction, set_up (any overload), do_arc_correction on one row
 #include "stir_fixtures.h"
 #include "common.h"
 #include "stir/ArcCorrection.h"
@@ -1259,6 +1260,50 @@ run_overlap(vh::Rng& rng, int ncases)
     }
 }
 
+// ORACLE (statement) for one arc-corrected row: the integral over the tangential coordinate is preserved when the arc-corrected range
+// covers the data; uniform data stay uniform away from the edges; arc-corrected bins outside the measured range are zero
+static void
+arc_row_oracle(const Array<1, float>& in, const Array<1, float>& res, int imin, int imax, int omin, int omax, double Reff, double ang,
+               double dout, bool uniform_row, int N, const char* tag = "")
+{
+  const double in_lo = Reff * std::sin((imin - 0.5) * ang), in_hi = Reff * std::sin((imax + 0.5) * ang);
+  const double out_lo = (omin - 0.5) * dout, out_hi = (omax + 0.5) * dout;
+  double sin_ = 0, mag = 0, sout = 0;
+  for (int i = imin; i <= imax; ++i)
+    {
+      const double w = Reff * (std::sin((i + 0.5) * ang) - std::sin((i - 0.5) * ang));
+      sin_ += in[i] * w;
+      mag += std::fabs(in[i]) * w;
+    }
+  for (int j = omin; j <= omax; ++j)
+    sout += res[j] * dout;
+  if (out_lo <= in_lo && out_hi >= in_hi)
+    {
+      ++oracle_checks;
+      if (!near(sin_, sout, 2e-3 * mag + 1e-6))
+        ofail(std::string("arc-integral") + tag, "arc correction does not preserve the integral over the tangential coordinate: in "
+                                                     + std::to_string(sin_) + " out " + std::to_string(sout));
+    }
+  if (uniform_row)
+    for (int j = omin; j <= omax; ++j)
+      {
+        const double lo = (j - 0.5) * dout, hi = (j + 0.5) * dout;
+        ++oracle_checks;
+        if (lo >= in_lo + 1e-3 && hi <= in_hi - 1e-3)
+          {
+            if (!near(res[j], 1.0, 2e-3))
+              ofail(std::string("arc-uniform-data") + tag, "arc correction of uniform data is not uniform away from the edges (N="
+                                                               + std::to_string(N) + " j=" + std::to_string(j)
+                                                               + " value=" + std::to_string(res[j]) + ")");
+          }
+        else if (hi <= in_lo - 1e-3 || lo >= in_hi + 1e-3)
+          {
+            if (res[j] != 0)
+              ofail(std::string("arc-outside") + tag, "arc-corrected bin outside the measured range is not zero");
+          }
+      }
+}
+
 static void
 run_arc(vh::Rng& rng, int ncases)
 {
@@ -1332,42 +1377,7 @@ run_arc(vh::Rng& rng, int ncases)
             o << (j > omin ? " " : "") << vh::hex(res[j]);
           std::fprintf(ops, "%s\n", line.str().c_str());
           std::fprintf(out, "%s\n", o.str().c_str());
-          // ORACLE (statement): the integral over the tangential coordinate is preserved when the arc-corrected range covers the data;
-          // uniform data stay uniform away from the edges
-          const double in_lo = Reff * std::sin((imin - 0.5) * ang), in_hi = Reff * std::sin((imax + 0.5) * ang);
-          const double out_lo = (omin - 0.5) * dout, out_hi = (omax + 0.5) * dout;
-          double sin_ = 0, mag = 0, sout = 0;
-          for (int i = imin; i <= imax; ++i)
-            {
-              const double w = Reff * (std::sin((i + 0.5) * ang) - std::sin((i - 0.5) * ang));
-              sin_ += in[i] * w;
-              mag += std::fabs(in[i]) * w;
-            }
-          for (int j = omin; j <= omax; ++j)
-            sout += res[j] * dout;
-          if (out_lo <= in_lo && out_hi >= in_hi)
-            {
-              ++oracle_checks;
-              if (!near(sin_, sout, 2e-3 * mag + 1e-6))
-                ofail("arc-integral", "arc correction does not preserve the integral over the tangential coordinate");
-            }
-          if (rep == 0)
-            for (int j = omin; j <= omax; ++j)
-              {
-                const double lo = (j - 0.5) * dout, hi = (j + 0.5) * dout;
-                ++oracle_checks;
-                if (lo >= in_lo + 1e-3 && hi <= in_hi - 1e-3)
-                  {
-                    if (!near(res[j], 1.0, 2e-3))
-                      ofail("arc-uniform-data", "arc correction of uniform data is not uniform away from the edges (N=" + std::to_string(c.N)
-                                                    + " j=" + std::to_string(j) + " value=" + std::to_string(res[j]) + ")");
-                  }
-                else if (hi <= in_lo - 1e-3 || lo >= in_hi + 1e-3)
-                  {
-                    if (res[j] != 0)
-                      ofail("arc-outside", "arc-corrected bin outside the measured range is not zero");
-                  }
-              }
+          arc_row_oracle(in, res, imin, imax, omin, omax, Reff, ang, dout, rep == 0, c.N);
         }
     }
 }
@@ -1578,6 +1588,437 @@ run_arc_overloads(vh::Rng& rng, int ncases)
                   }
               }
           }
+    }
+}
+
+// ---------------------------------------------------------------------------------------------
+// ONE ArcCorrection object set up again and again: histories A -> B -> A -> C -> B on the same object, where B and C differ from A in
+// exactly one of: ring radius / number of detectors per ring (angular increment) with the same tangential range / tangential range /
+// default bin size / set_up overload and its arguments / rings and span.  set_up must overwrite every cached quantity
+// (_noarccorr_coords, _noarccorr_bin_sizes, _arccorr_coords, tangential_sampling, both ProjDataInfo pointers): after every set_up the
+// re-used object is compared bit for bit with a FRESH object set up with the same arguments (every overload of do_arc_correction), its
+// rows go to the Lean model's state machine (`acnew` / `acsu` / `acrow`: the model keeps the cached arrays of the object between
+// lines) and the property's oracles (integral, uniform -> uniform) run on them.
+struct ReuseStep
+{
+  Cfg c;
+  int mode = 0, nout = 1, kind = -1, v0 = 1, m = 1;
+  float bs = 1.F;
+  bool full_views = true;
+};
+
+static Succeeded
+reuse_set_up(ArcCorrection& a, const shared_ptr<ProjDataInfo>& pdi, const ReuseStep& st)
+{
+  return st.mode == 0 ? a.set_up(pdi, st.nout, st.bs) : st.mode == 1 ? a.set_up(pdi, st.nout) : a.set_up(pdi);
+}
+
+static void
+reuse_fix_segments(ReuseStep& s, vh::Rng& rng)
+{
+  s.c.max_delta = largest_complete_max_delta(s.c.span, s.c.R, rng, true);
+  if (s.c.max_delta < 0)
+    {
+      s.c.span = 1;
+      s.c.max_delta = s.c.R - 1;
+    }
+}
+
+static ReuseStep
+reuse_vary(const ReuseStep& a, int kind, vh::Rng& rng)
+{
+  ReuseStep b = a;
+  b.kind = kind;
+  switch (kind)
+    {
+    case 0: // ring radius (and with it every edge R sin((t +- 1/2) dphi)), same index ranges
+      do
+        b.c.radius = (float)(rng.range(400, 4000) / 8.0);
+      while (std::fabs(b.c.radius - a.c.radius) < 0.03F * a.c.radius);
+      break;
+    case 1: // number of detectors per ring (angular increment), same tangential range
+      {
+        std::vector<int> ms;
+        for (int m = 1; m <= 5; ++m)
+          if (m != a.m && 2 * a.v0 * m - 1 >= a.c.ntang)
+            ms.push_back(m);
+        b.m = ms[rng.range(0, (int)ms.size() - 1)];
+        b.c.N = 2 * a.v0 * b.m;
+        b.c.views = a.full_views ? b.c.N / 2 : a.v0;
+        break;
+      }
+    case 2: // tangential range
+      do
+        b.c.ntang = rng.range(3, a.c.N - 1);
+      while (b.c.ntang == a.c.ntang);
+      break;
+    case 3: // default bin size of the scanner (used by set_up(pdi) and set_up(pdi, n)); 0 = "use the central bin size"
+      do
+        b.c.binsize = rng.range(0, 5) == 0 ? 0.F : (float)(rng.range(4, 40) / 8.0);
+      while (b.c.binsize == a.c.binsize);
+      if (b.mode == 0)
+        b.mode = rng.range(1, 2);
+      break;
+    case 4: // another overload / other arguments, same input geometry
+      do
+        {
+          b.mode = rng.range(0, 2);
+          b.nout = rng.range(1, 2 * a.c.N);
+          b.bs = (float)(rng.range(4, 64) / 8.0);
+        }
+      while (b.mode == a.mode && (b.mode == 2 || (b.nout == a.nout && (b.mode == 1 || b.bs == a.bs))));
+      break;
+    default: // rings / span: the arc-corrected ProjDataInfo must follow
+      do
+        b.c.R = rng.range(1, 4);
+      while (b.c.R == a.c.R);
+      b.c.span = rng.range(0, 1) ? 3 : 1;
+      reuse_fix_segments(b, rng);
+      break;
+    }
+  return b;
+}
+
+template <class A>
+static bool
+same_related(const A& x, const A& y)
+{
+  if (x.get_num_viewgrams() != y.get_num_viewgrams())
+    return false;
+  auto j = y.begin();
+  for (auto i = x.begin(); i != x.end(); ++i, ++j)
+    if (i->get_view_num() != j->get_view_num() || i->get_segment_num() != j->get_segment_num()
+        || i->get_timing_pos_num() != j->get_timing_pos_num() || !same_all(*i, *j))
+      return false;
+  return true;
+}
+
+static void
+run_arc_reuse(vh::Rng& rng, int ncases)
+{
+  static const char* kind_name[] = { "start", "ring-radius", "detectors-per-ring", "tangential-range", "default-bin-size",
+                                     "set_up-arguments", "rings-span" };
+  for (int k = 0; k < ncases; ++k)
+    {
+      ReuseStep A;
+      A.v0 = rng.range(6, 12);
+      A.m = rng.range(1, 3);
+      A.full_views = rng.range(0, 1) == 0;
+      A.c.N = 2 * A.v0 * A.m;
+      A.c.views = A.full_views ? A.c.N / 2 : A.v0;
+      A.c.R = rng.range(1, 3);
+      A.c.span = rng.range(0, 2) == 0 ? 3 : 1;
+      reuse_fix_segments(A, rng);
+      A.c.radius = (float)(rng.range(400, 4000) / 8.0);
+      A.c.doi = (float)(rng.range(0, 80) / 8.0);
+      A.c.binsize = (float)(rng.range(4, 40) / 8.0);
+      A.c.ntang = rng.range(3, A.c.N - 1);
+      if (k % 2 == 0)
+        A.c.ntang = std::max(3, std::min(A.c.ntang, (int)(A.c.N * 0.6)));
+      A.mode = k % 6 == 3 ? 1 + (k / 6) % 2 : k % 3; // (the default bin size only matters for the overloads that use it)
+      A.nout = rng.range(1, 2 * A.c.N);
+      A.bs = (float)(rng.range(4, 64) / 8.0);
+      const ReuseStep B = reuse_vary(A, k % 6, rng), C = reuse_vary(A, rng.range(0, 5), rng);
+      const ReuseStep hist[] = { A, B, A, C, B };
+      ArcCorrection ac; // the ONE re-used object of this history
+      std::fprintf(ops, "acnew\n");
+      std::fprintf(out, "ok\n");
+      for (int step = 0; step < 5; ++step)
+        {
+          const ReuseStep& st = hist[step];
+          const Cfg& c = st.c;
+          char buf[384];
+          std::snprintf(buf, sizeof buf,
+                        "re-used ArcCorrection object, history %d step %d (%c, differs from A in: %s): N=%d R=%d span=%d max_delta=%d views=%d "
+                        "ntang=%d radius=%g default_bin_size=%g set_up overload %d (n=%d bin_size=%g)",
+                        k, step, "ABACB"[step], kind_name[st.kind + 1], c.N, c.R, c.span, c.max_delta, c.views, c.ntang, c.radius, c.binsize,
+                        st.mode, st.nout, st.bs);
+          cur_cfg = buf;
+          shared_ptr<Scanner> sc = make_scanner(c);
+          shared_ptr<ProjDataInfo> pdi = vh::make_pdi(sc, c.span, c.max_delta, c.views, c.ntang, false, 0);
+          ArcCorrection fr; // fresh object, same arguments
+          ++oracle_checks;
+          if (reuse_set_up(ac, pdi, st) != Succeeded::yes || reuse_set_up(fr, pdi, st) != Succeeded::yes)
+            {
+              ofail("arc-reuse-setup", "ArcCorrection::set_up failed for a non-arc-corrected geometry");
+              break;
+            }
+          const shared_ptr<const ProjDataInfo> apdi = ac.get_arc_corrected_proj_data_info_sptr();
+          const ProjDataInfoCylindricalArcCorr& pa = ac.get_arc_corrected_proj_data_info();
+          const ProjDataInfoCylindricalNoArcCorr& pn = ac.get_not_arc_corrected_proj_data_info();
+          ++oracle_checks;
+          if (ac.get_not_arc_corrected_proj_data_info_sptr().get() != pdi.get() || !(*apdi == *fr.get_arc_corrected_proj_data_info_sptr()))
+            {
+              ofail("arc-reuse-geometry", "after set_up a re-used ArcCorrection object reports other projection-data geometries than a fresh one");
+              break;
+            }
+          const int imin = pn.get_min_tangential_pos_num(), imax = pn.get_max_tangential_pos_num();
+          const int omin = pa.get_min_tangential_pos_num(), omax = pa.get_max_tangential_pos_num();
+          const double Reff = sc->get_effective_ring_radius(), dout = pa.get_tangential_sampling(), ang = pn.get_angular_increment();
+          const float s0 = pn.get_sampling_in_s(Bin(0, 0, 0, 0));
+          // the model's state machine: set_up with what the overload derives (mode 2: the number of positions is data, checked below)
+          std::fprintf(ops, "acsu %d %d %s %s %s %d %d %d %s %s\n", st.mode, c.N, H(Reff), H(sc->get_default_bin_size()), H(s0), imin, imax,
+                       st.mode == 2 ? pa.get_num_tangential_poss() : st.nout, H(st.bs), H(ang));
+          std::fprintf(out, "%d %d %s\n", omin, omax, H(pa.get_tangential_sampling()));
+          if (st.mode == 2)
+            {
+              // set_up(pdi): 2 ceil(max_s / sampling) + 1 positions, max_s = s two bins beyond the last one
+              const double max_s = std::max(Reff * std::sin((imax + 2) * ang), -Reff * std::sin((imin - 2) * ang));
+              const int half = (pa.get_num_tangential_poss() - 1) / 2;
+              ++oracle_checks;
+              if (pa.get_num_tangential_poss() % 2 != 1 || half * dout < max_s * (1 - 1e-5) || (half - 1) * dout >= max_s * (1 + 1e-5))
+                ofail("arc-reuse-default-size", "set_up(proj_data_info) does not choose 2 ceil(max_s / bin size) + 1 arc-corrected positions");
+            }
+          // rows: uniform, positive, signed; re-used object -> model and oracles, and bitwise equal to the fresh object
+          {
+            Sinogram<float> sino_in = pn.get_empty_sinogram(0, 0);
+            const int nrep = std::min(3, sino_in.get_num_views());
+            for (int rep = 0; rep < nrep; ++rep)
+              for (int i = imin; i <= imax; ++i)
+                sino_in[rep][i] = rep == 0 ? 1.F : (rep == 1 ? (float)(rng.range(0, 4096) / 64.0) : (float)(rng.range(-2048, 2048) / 64.0));
+            const Sinogram<float> so = ac.do_arc_correction(sino_in);
+            Sinogram<float> sf = pa.get_empty_sinogram(0, 0);
+            sf.fill(-77.F);
+            fr.do_arc_correction(sf, sino_in);
+            ++oracle_checks;
+            if (!same_all(so, sf))
+              ofail("arc-reuse-Sinogram", "do_arc_correction(Sinogram) of a re-used ArcCorrection object differs from a fresh object's");
+            for (int rep = 0; rep < nrep; ++rep)
+              {
+                std::ostringstream line, o;
+                line << "acrow |";
+                for (int i = imin; i <= imax; ++i)
+                  line << " " << vh::hex(sino_in[rep][i]);
+                for (int j = omin; j <= omax; ++j)
+                  o << (j > omin ? " " : "") << vh::hex(so[rep][j]);
+                std::fprintf(ops, "%s\n", line.str().c_str());
+                std::fprintf(out, "%s\n", o.str().c_str());
+                ++total.arc_rows;
+                arc_row_oracle(sino_in[rep], so[rep], imin, imax, omin, omax, Reff, ang, dout, rep == 0, c.N, "-reused");
+              }
+          }
+          // every overload, re-used against fresh, on random data
+          shared_ptr<ExamInfo> exam(new ExamInfo);
+          ProjDataInMemory in(exam, pdi), out_ac(exam, apdi), out_fr(exam, fr.get_arc_corrected_proj_data_info_sptr());
+          out_ac.fill(-77.F);
+          out_fr.fill(-78.F);
+          const int mins = pdi->get_min_segment_num(), maxs = pdi->get_max_segment_num();
+          for (int sg = mins; sg <= maxs; ++sg)
+            {
+              SegmentBySinogram<float> seg = pdi->get_empty_segment_by_sinogram(sg, false, 0);
+              for (auto it = seg.begin_all(); it != seg.end_all(); ++it)
+                *it = (float)(rng.range(1, 4096) / 64.0);
+              in.set_segment(seg);
+            }
+          auto fail = [&](const char* what, int sg) {
+            ofail(std::string("arc-reuse-") + what, std::string("do_arc_correction(") + what
+                                                        + ") of a re-used ArcCorrection object differs from a fresh object's (segment "
+                                                        + std::to_string(sg) + ")");
+          };
+          ++oracle_checks;
+          if (ac.do_arc_correction(out_ac, in) != Succeeded::yes || fr.do_arc_correction(out_fr, in) != Succeeded::yes)
+            ofail("arc-reuse-ProjData-status", "ArcCorrection::do_arc_correction(ProjData) reports failure");
+          shared_ptr<VoxelsOnCartesianGrid<float>> image = vh::make_image(*pdi);
+          shared_ptr<DataSymmetriesForViewSegmentNumbers> symm(new DataSymmetriesForBins_PET_CartesianGrid(pdi, image));
+          for (int sg = mins; sg <= maxs; ++sg)
+            {
+              ++oracle_checks;
+              if (!same_all(out_ac.get_segment_by_sinogram(sg), out_fr.get_segment_by_sinogram(sg)))
+                fail("ProjData", sg);
+              const SegmentBySinogram<float> ss = in.get_segment_by_sinogram(sg);
+              const SegmentByView<float> sv = in.get_segment_by_view(sg);
+              ++oracle_checks;
+              if (!same_all(ac.do_arc_correction(ss), fr.do_arc_correction(ss)))
+                fail("SegmentBySinogram", sg);
+              ++oracle_checks;
+              if (!same_all(ac.do_arc_correction(sv), fr.do_arc_correction(sv)))
+                fail("SegmentByView", sg);
+              {
+                SegmentBySinogram<float> o1 = apdi->get_empty_segment_by_sinogram(sg, false, 0), o2 = o1;
+                o1.fill(-77.F), o2.fill(-78.F);
+                ac.do_arc_correction(o1, ss);
+                fr.do_arc_correction(o2, ss);
+                ++oracle_checks;
+                if (!same_all(o1, o2))
+                  fail("SegmentBySinogram&", sg);
+                SegmentByView<float> p1 = apdi->get_empty_segment_by_view(sg, false, 0), p2 = p1;
+                p1.fill(-77.F), p2.fill(-78.F);
+                ac.do_arc_correction(p1, sv);
+                fr.do_arc_correction(p2, sv);
+                ++oracle_checks;
+                if (!same_all(p1, p2))
+                  fail("SegmentByView&", sg);
+              }
+              for (int a : pick(ss.get_min_axial_pos_num(), ss.get_max_axial_pos_num(), 2, rng))
+                {
+                  const Sinogram<float> si = in.get_sinogram(a, sg, false, 0);
+                  ++oracle_checks;
+                  if (!same_all(ac.do_arc_correction(si), fr.do_arc_correction(si)))
+                    fail("Sinogram", sg);
+                }
+              for (int v : pick(pdi->get_min_view_num(), pdi->get_max_view_num(), thorough ? 6 : 3, rng))
+                {
+                  const Viewgram<float> vin = in.get_viewgram(v, sg, false, 0);
+                  ++oracle_checks;
+                  if (!same_all(ac.do_arc_correction(vin), fr.do_arc_correction(vin)))
+                    fail("Viewgram", sg);
+                  Viewgram<float> o1 = apdi->get_empty_viewgram(v, sg, false, 0), o2 = o1;
+                  o1.fill(-77.F), o2.fill(-78.F);
+                  ac.do_arc_correction(o1, vin);
+                  fr.do_arc_correction(o2, vin);
+                  ++oracle_checks;
+                  if (!same_all(o1, o2))
+                    fail("Viewgram&", sg);
+                  if (symm->is_basic(ViewSegmentNumbers(v, sg)))
+                    {
+                      const RelatedViewgrams<float> rin = in.get_related_viewgrams(ViewgramIndices(v, sg, 0), symm, false, 0);
+                      ++oracle_checks;
+                      if (!same_related(ac.do_arc_correction(rin), fr.do_arc_correction(rin)))
+                        fail("RelatedViewgrams", sg);
+                    }
+                }
+            }
+        }
+    }
+}
+
+// ---------------------------------------------------------------------------------------------
+// the other stateful helper of this property's anchors: the lazily computed axial tables of ProjDataInfoCylindrical (m_offset,
+// ax_pos_num_offset, ring-pair tables; `ring_diff_arrays_computed`) and the TOF bin table of ProjDataInfo.  An object whose tables were
+// already computed and that is then changed (reduce_segment_range, set_ring_spacing there and back, set_tof_mash_factor twice) must report
+// bit for bit the coordinates of a FRESH object constructed for the final geometry (oracle only).
+static bool
+same_coordinates(const ProjDataInfo& p, const ProjDataInfo& q, vh::Rng& rng, std::string& where)
+{
+  if (p.get_min_segment_num() != q.get_min_segment_num() || p.get_max_segment_num() != q.get_max_segment_num()
+      || p.get_min_tof_pos_num() != q.get_min_tof_pos_num() || p.get_max_tof_pos_num() != q.get_max_tof_pos_num())
+    {
+      where = "segment / TOF range";
+      return false;
+    }
+  for (int sg = p.get_min_segment_num(); sg <= p.get_max_segment_num(); ++sg)
+    {
+      if (p.get_min_axial_pos_num(sg) != q.get_min_axial_pos_num(sg) || p.get_max_axial_pos_num(sg) != q.get_max_axial_pos_num(sg))
+        {
+          where = "axial range of segment " + std::to_string(sg);
+          return false;
+        }
+      for (int a : pick(p.get_min_axial_pos_num(sg), p.get_max_axial_pos_num(sg), 4, rng))
+        for (int t : pick(p.get_min_tof_pos_num(), p.get_max_tof_pos_num(), 3, rng))
+          {
+            const Bin b(sg, rng.range(p.get_min_view_num(), p.get_max_view_num()), a,
+                        rng.range(p.get_min_tangential_pos_num(), p.get_max_tangential_pos_num()), t, 1.F);
+            if (p.get_m(b) != q.get_m(b) || p.get_t(b) != q.get_t(b) || p.get_tantheta(b) != q.get_tantheta(b) || p.get_s(b) != q.get_s(b)
+                || p.get_phi(b) != q.get_phi(b) || p.get_k(b) != q.get_k(b) || p.get_sampling_in_m(b) != q.get_sampling_in_m(b)
+                || p.get_sampling_in_t(b) != q.get_sampling_in_t(b) || p.get_sampling_in_k(b) != q.get_sampling_in_k(b))
+              {
+                where = "bin " + bstr(b);
+                return false;
+              }
+          }
+    }
+  if (p.is_tof_data())
+    for (int t = p.get_min_tof_pos_num(); t <= p.get_max_tof_pos_num(); ++t)
+      if (p.tof_bin_boundaries_mm[t].low_lim != q.tof_bin_boundaries_mm[t].low_lim
+          || p.tof_bin_boundaries_mm[t].high_lim != q.tof_bin_boundaries_mm[t].high_lim
+          || p.tof_bin_boundaries_ps[t].low_lim != q.tof_bin_boundaries_ps[t].low_lim
+          || p.tof_bin_boundaries_ps[t].high_lim != q.tof_bin_boundaries_ps[t].high_lim)
+        {
+          where = "TOF bin boundaries of position " + std::to_string(t);
+          return false;
+        }
+  return true;
+}
+
+static void
+prime_tables(const ProjDataInfo& p)
+{
+  // (the first coordinate query computes the lazily initialised tables)
+  volatile float sink = p.get_m(Bin(0, 0, 0, 0)) + p.get_tantheta(Bin(p.get_max_segment_num(), 0, 0, 0)) + p.get_k(Bin(0, 0, 0, 0));
+  (void)sink;
+}
+
+static void
+run_pdi_reuse(vh::Rng& rng, int ncases)
+{
+  for (int k = 0; k < ncases; ++k)
+    {
+      Cfg c;
+      c.N = 2 * rng.range(8, 32);
+      c.R = rng.range(3, 8);
+      c.span = (k % 2) ? 3 : 1;
+      c.max_delta = largest_complete_max_delta(c.span, c.R, rng, true);
+      c.radius = (float)(rng.range(400, 4000) / 8.0);
+      c.doi = (float)(rng.range(0, 80) / 8.0);
+      c.spacing = (float)(rng.range(8, 64) / 8.0);
+      c.binsize = (float)(rng.range(4, 40) / 8.0);
+      c.views = c.N / 2;
+      c.arc = k % 3 == 2;
+      c.ntang = rng.range(3, c.arc ? c.N / 2 - 1 : c.N - 1);
+      const bool tof = k % 2 == 0;
+      if (tof)
+        {
+          c.tof_bins = 9;
+          c.tof_mash = 1;
+          c.tofsize = 100.F;
+        }
+      char buf[256];
+      std::snprintf(buf, sizeof buf, "re-used ProjDataInfo object: N=%d R=%d span=%d max_delta=%d ntang=%d arc=%d spacing=%g tof=%d", c.N, c.R,
+                    c.span, c.max_delta, c.ntang, c.arc ? 1 : 0, c.spacing, tof ? 1 : 0);
+      cur_cfg = buf;
+      shared_ptr<Scanner> sc = make_scanner(c);
+      shared_ptr<ProjDataInfo> pdi = vh::make_pdi(sc, c.span, c.max_delta, c.views, c.ntang, c.arc, c.tof_mash);
+      std::string where;
+      // (1) reduce_segment_range after the tables were computed
+      if (pdi->get_max_segment_num() >= 1)
+        {
+          shared_ptr<ProjDataInfo> q(pdi->clone());
+          prime_tables(*q);
+          const int ms = pdi->get_max_segment_num() - 1;
+          q->reduce_segment_range(-ms, ms);
+          const int md = dynamic_cast<const ProjDataInfoCylindrical&>(*q).get_max_ring_difference(ms);
+          shared_ptr<ProjDataInfo> fresh = vh::make_pdi(sc, c.span, md, c.views, c.ntang, c.arc, c.tof_mash);
+          ++oracle_checks;
+          if (!same_coordinates(*q, *fresh, rng, where))
+            ofail("pdi-reuse-reduce_segment_range",
+                  "after reduce_segment_range an object whose axial tables were already computed reports other coordinates than a fresh one: " + where);
+        }
+      // (2) set_ring_spacing: to another value (fresh object: a scanner with that ring spacing) and back (the original object)
+      {
+        shared_ptr<ProjDataInfo> q(pdi->clone());
+        prime_tables(*q);
+        Cfg c2 = c;
+        do
+          c2.spacing = (float)(rng.range(8, 64) / 8.0);
+        while (c2.spacing == c.spacing);
+        dynamic_cast<ProjDataInfoCylindrical&>(*q).set_ring_spacing(c2.spacing);
+        shared_ptr<Scanner> sc2 = make_scanner(c2);
+        shared_ptr<ProjDataInfo> fresh = vh::make_pdi(sc2, c.span, c.max_delta, c.views, c.ntang, c.arc, c.tof_mash);
+        ++oracle_checks;
+        if (!same_coordinates(*q, *fresh, rng, where))
+          ofail("pdi-reuse-set_ring_spacing",
+                "after set_ring_spacing an object whose axial tables were already computed reports other coordinates than a fresh one: " + where);
+        prime_tables(*q);
+        dynamic_cast<ProjDataInfoCylindrical&>(*q).set_ring_spacing(c.spacing);
+        ++oracle_checks;
+        if (!same_coordinates(*q, *pdi, rng, where))
+          ofail("pdi-reuse-set_ring_spacing-back", "set_ring_spacing there and back does not give the coordinates of the original object: " + where);
+      }
+      // (3) set_tof_mash_factor more than once: the TOF bin table must be that of the last factor
+      if (tof)
+        {
+          shared_ptr<ProjDataInfo> q(pdi->clone());
+          prime_tables(*q);
+          q->set_tof_mash_factor(3);
+          shared_ptr<ProjDataInfo> fresh3 = vh::make_pdi(sc, c.span, c.max_delta, c.views, c.ntang, c.arc, 3);
+          ++oracle_checks;
+          if (!same_coordinates(*q, *fresh3, rng, where))
+            ofail("pdi-reuse-set_tof_mash_factor", "a second set_tof_mash_factor does not give the TOF bins of a fresh object: " + where);
+          q->set_tof_mash_factor(1);
+          ++oracle_checks;
+          if (!same_coordinates(*q, *pdi, rng, where))
+            ofail("pdi-reuse-set_tof_mash_factor-back", "set_tof_mash_factor there and back does not give the TOF bins of the original object: " + where);
+        }
     }
 }
 
@@ -2057,6 +2498,8 @@ main(int argc, char** argv)
       run_overlap(rng, thorough ? 4000 : 800);
       run_arc(rng, thorough ? 300 : 60);
       run_arc_overloads(rng, thorough ? 120 : 12);
+      run_arc_reuse(rng, thorough ? 90 : 18);
+      run_pdi_reuse(rng, thorough ? 120 : 24);
       run_lor_conversions(rng, thorough ? 20000 : 1000);
     }
   catch (std::exception& e)
